@@ -105,6 +105,7 @@ def mk_plate(I, name, rows=ROWS, cols=COLS, display_name=None):
     p.fields.update(name=display_name or name, make='generic', n_rows=len(rows), n_columns=len(cols), row_names=list(rows),
                     column_names=list(cols), max_volume_per_well=z3.Real(f'mv_{name}'), wells=grid)
     p.__dict__['cells0'] = [list(r) for r in cells]
+    clib.init_defaults(I, p)
     return p
 
 
